@@ -142,6 +142,8 @@ def _str_to_addr_bytes_and_mask(
         raise ValueError(f"Invalid IPv6 address: {value}") from None
     if mask is not None:
         try:
+            if not mask.isascii() or not mask.isdigit():
+                raise ValueError()
             mask = int(mask)
             if mask < 0 or mask > 128:
                 raise ValueError()
